@@ -58,6 +58,10 @@ structure CharEnv where
   isWs : Char → Bool
   upper : Char → Str
   lower : Char → Str
+  /-- Rust `char::is_case_ignorable` (private to core; extracted behaviourally, see harness extract.rs) -/
+  caseIgn : Char → Bool := fun _ => false
+  /-- Rust `char::is_cased`, restricted to characters that are not case-ignorable (only those are ever asked) -/
+  cased : Char → Bool := fun c => c.isAlpha
 
 /-- ASCII-only environment (used in examples and kernel evaluation) -/
 def CharEnv.ascii : CharEnv where
